@@ -395,7 +395,8 @@ Qed.
 (* ---- check_positive: the sign test; under a true guard nothing is checked at run time, so the identity
         (2 r) x = x + sum(bits of |x| or |x|-1) + (1 - r) is proved here ---- *)
 Lemma check_positive_wp x k s sg (Q : slc -> gst -> store -> Prop) : Inv s sg ->
-  (forall r s' sg', Post s sg s' sg' -> slc_scoped (npub s') (npriv s') r = true -> Q r s' sg') ->
+  (forall r s' sg', Post s sg s' sg' -> slc_scoped (npub s') (npriv s') r = true ->
+     (be sg (ignore s) = false -> ve sg' (sval r) = if 0 <=? ve sg (sval x) then 1 else 0) -> Q r s' sg') ->
   wp (check_positive x k) s sg Q.
 Proof.
   intros I HQ. unfold check_positive, get, raise_if. cbn [bind wp]. intros C B.
@@ -435,6 +436,8 @@ Proof.
     apply HQ.
     + split; [exact I3|split; [eapply ext_trans; [exact E02|exact E3]|congruence]].
     + eapply slc_scoped_mono; [| |exact Sr]; lia.
+    + intros Bi. rewrite (ve_ext ins ig _ _ _ _ (proj1 I1) (ext_trans _ _ _ E2 E3) (scoped_sval _ _ _ Sr)). rewrite Vr.
+      esimp_in B. rewrite Bi in B. cbn [negb] in B. rewrite andb_true_r in B. apply negb_false_iff in B. esimp. rewrite B. reflexivity.
 Qed.
 Lemma OK_check_positive x k : OK (check_positive x k).
 Proof. intros s sg Q I HQ. apply check_positive_wp; [exact I|]. intros. apply HQ. assumption. Qed.
@@ -475,7 +478,9 @@ Qed.
 
 (* ---- exact division by a LinComb: y * (x // y) = x when x % y = 0 ---- *)
 Lemma truediv_wp x y s sg (Q : slc -> gst -> store -> Prop) : Inv s sg ->
-  (forall r s' sg', Post s sg s' sg' -> Q r s' sg') -> wp (truediv x y) s sg Q.
+  (forall r s' sg', Post s sg s' sg' ->
+     (be sg (ignore s) = false -> ve sg' (sval r) = ve sg (sval x) / ve sg (sval y) /\ ve sg (sval x) mod ve sg (sval y) = 0 /\ ve sg (sval y) <> 0) -> Q r s' sg') ->
+  wp (truediv x y) s sg Q.
 Proof.
   intros I HQ. unfold truediv, get, raise_if, privval. cbn [bind wp]. intros C1 B1 C2 B2 C3.
   set (Bc := BAnd (isg s) (BEq (VMod (sval x) (sval y)) (VConst 0))) in *.
@@ -493,14 +498,21 @@ Proof.
     unfold z. esimp. rewrite B2. unfold Bc in B2. esimp_in B2. apply andb_prop in B2. destruct B2 as [_ B2].
     apply Z.eqb_eq in B2. esimp_in B1. apply Z.eqb_neq in B1.
     apply eq_feq. symmetry. apply Z_div_exact_full_2; assumption.
-  - intros s' sg' P. cbn [ret wp]. apply HQ. eapply Post_trans; [apply Post_priv; exact I|exact P].
+  - intros s' sg' P. cbn [ret wp]. apply HQ; [eapply Post_trans; [apply Post_priv; exact I|exact P]|].
+    intros Bi. destruct P as (I' & E' & _).
+    rewrite (ve_ext ins ig _ _ _ _ (proj1 (Inv_priv ins ig _ _ z I)) E' (scoped_sval _ _ _ (new_priv_scoped _ _ Ic))), (ve_new_priv _ _ _ Ic).
+    esimp_in B2. rewrite Bi in B2. cbn [negb] in B2. rewrite andb_true_r in B2. apply negb_false_iff in B2.
+    unfold z. esimp. rewrite B2. unfold Bc in B2. esimp_in B2. apply andb_prop in B2. destruct B2 as [_ B2].
+    apply Z.eqb_eq in B2. esimp_in B1. apply Z.eqb_neq in B1. auto.
 Qed.
 Lemma OK_truediv x y : OK (truediv x y).
 Proof. intros s sg Q I HQ. apply truediv_wp; [exact I|]. intros. apply HQ. assumption. Qed.
 
 (* ---- divmod: quo * y = x - rem holds exactly for the honest witness (rem := x - quo * y) ---- *)
 Lemma divmod_wp x y s sg (Q : slc * slc -> gst -> store -> Prop) : Inv s sg ->
-  (forall r s' sg', Post s sg s' sg' -> Q r s' sg') -> wp (divmod c x y) s sg Q.
+  (forall r s' sg', Post s sg s' sg' ->
+     ve sg' (sval (fst r)) = ve sg (sval x) / ve sg (sval y) /\ ve sg' (sval (snd r)) = ve sg (sval x) mod ve sg (sval y) -> Q r s' sg') ->
+  wp (divmod c x y) s sg Q.
 Proof.
   intros I HQ. unfold divmod, raise_if, privval. cbn [bind wp]. intros C1 B1 C2.
   pose proof (proj1 I) as Ic.
@@ -529,13 +541,36 @@ Proof.
     rewrite Ey. apply eq_feq. ring.
   - intros s4 sg4 P4. apply wp_bind. apply OK_assert_lt; [exact (proj1 P4)|]. intros _ s5 sg5 P5.
     apply wp_bind. apply OK_assert_positive; [exact (proj1 P5)|]. intros _ s6 sg6 P6. cbn [ret wp].
-    apply HQ. eapply Post_trans; [apply Post_priv; exact I|].
-    eapply Post_trans; [split; [exact I2|split; [exact E2|exact T2]]|].
-    eapply Post_trans; [apply Post_priv; exact I2|].
-    eapply Post_trans; [exact P4|]. eapply Post_trans; [exact P5|exact P6].
+    assert (E36 : ext sg3 sg6) by (eapply ext_trans; [exact (proj1 (proj2 P4))|eapply ext_trans; [exact (proj1 (proj2 P5))|exact (proj1 (proj2 P6))]]).
+    assert (E16 : ext sg1 sg6) by (eapply ext_trans; [exact E2|eapply ext_trans; [apply ext_push_priv|exact E36]]).
+    assert (E01 : ext sg sg1) by apply ext_push_priv.
+    apply HQ.
+    { eapply Post_trans; [apply Post_priv; exact I|].
+      eapply Post_trans; [split; [exact I2|split; [exact E2|exact T2]]|].
+      eapply Post_trans; [apply Post_priv; exact I2|].
+      eapply Post_trans; [exact P4|]. eapply Post_trans; [exact P5|exact P6]. }
+    cbn [fst snd].
+    assert (Qv : ve sg1 (sval (var_slc (p:=p) (- (npriv s + 1)))) = ve sg (sval x) / ve sg (sval y)).
+    { unfold sg1. rewrite (ve_new_priv _ _ _ Ic). unfold q. esimp. reflexivity. }
+    split.
+    + rewrite (ve_ext ins ig s1 _ _ _ Ic1 E16 (scoped_sval _ _ _ Sq)). exact Qv.
+    + rewrite (ve_ext ins ig s3 _ _ _ (proj1 I3) E36 (scoped_sval _ _ _ (new_priv_scoped _ _ Ic2))). unfold sg3. rewrite (ve_new_priv _ _ _ Ic2).
+      unfold rm. esimp. rewrite Vres, Qv.
+      rewrite (ve_ext ins ig s _ _ _ Ic (ext_trans _ _ _ E01 E2) Cx).
+      assert (Ey : ve sg1 (sval y) = ve sg (sval y)) by (apply (ve_ext ins ig s _ _ _ Ic E01 Cy)). rewrite Ey.
+      esimp_in B1. apply Z.eqb_neq in B1. rewrite (Z.mod_eq _ _ B1). ring.
 Qed.
 Lemma OK_divmod x y : OK (divmod c x y).
 Proof. intros s sg Q I HQ. apply divmod_wp; [exact I|]. intros. apply HQ. assumption. Qed.
+Lemma ite_lc_wp cnd t f s sg (Q : slc -> gst -> store -> Prop) : Inv s sg ->
+  (forall r s' sg', Post s sg s' sg' -> ve sg' (sval r) = ve sg (sval f) + ve sg (sval cnd) * (ve sg (sval t) - ve sg (sval f)) -> Q r s' sg') ->
+  wp (ite_lc cnd t f) s sg Q.
+Proof.
+  intros I HQ. unfold ite_lc. apply wp_bind. apply mul_wp; [exact I|]. intros m s1 sg1 P1 Sm Vm Cc Ctf. cbn [ret wp].
+  apply HQ; [exact P1|]. cbn [sval add]. esimp. rewrite Vm. unfold sub. cbn [sval add neg]. esimp.
+  cbn [vscopedb sval sub add neg] in Ctf. apply andb_prop in Ctf. destruct Ctf as [Ct Cf]. cbn [vscopedb] in Cf. apply andb_prop in Cf. destruct Cf as [_ Cf].
+  rewrite (ve_ext ins ig _ _ _ _ (proj1 I) (proj1 (proj2 P1)) Cf). ring.
+Qed.
 
 Lemma OK_pow_nat x : forall k, OK (pow_nat x k).
 Proof.
@@ -633,6 +668,73 @@ Proof.
   - right. rewrite Vyb. rewrite (ve_ext ins ig _ _ _ _ (proj1 I) E1 Cy), Hz. apply pybit_zero_all.
 Qed.
 
+(* exact value of the AND gadget on the bit lists *)
+Lemma zip_and_vals : forall xb yb s sg (Q : list slc -> gst -> store -> Prop), Inv s sg ->
+  Forall (fun b => slc_scoped (npub s) (npriv s) b = true) xb -> Forall (fun b => slc_scoped (npub s) (npriv s) b = true) yb ->
+  (forall rs s' sg', Post s sg s' sg' -> vals sg' rs = map (fun ab => snd ab * fst ab) (combine (vals sg xb) (vals sg yb)) -> Q rs s' sg') ->
+  wp (zipM bit_and xb yb) s sg Q.
+Proof.
+  induction xb as [|a xb IH]; intros yb s sg Q I Sx Sy HQ; cbn [zipM].
+  - cbn [ret wp]. apply HQ; [apply Post_refl; exact I|reflexivity].
+  - destruct yb as [|b yb].
+    + cbn [ret wp]. apply HQ; [apply Post_refl; exact I|reflexivity].
+    + inversion Sx as [|? ? Sa Sx']; subst. inversion Sy as [|? ? Sb Sy']; subst.
+      apply wp_bind. unfold bit_and. apply mul_wp; [exact I|]. intros r s1 sg1 P1 Sr Vr _ _. destruct P1 as (I1 & E1 & T1).
+      pose proof (cnt_mono _ _ _ _ (proj1 I) (proj1 I1) E1) as [M1 M2].
+      apply wp_bind. apply IH; [exact I1| | |].
+      * eapply Forall_impl; [|exact Sx']. intros z Hz. eapply slc_scoped_mono; [| |exact Hz]; lia.
+      * eapply Forall_impl; [|exact Sy']. intros z Hz. eapply slc_scoped_mono; [| |exact Hz]; lia.
+      * intros rs s2 sg2 P2 Hrs. cbn [ret wp]. destruct P2 as (I2 & E2 & T2).
+        apply HQ; [split; [exact I2|split; [eapply ext_trans; eauto|congruence]]|].
+        cbn [vals map combine fst snd]. f_equal.
+        -- rewrite (ve_ext ins ig _ _ _ _ (proj1 I1) E2 (scoped_sval _ _ _ Sr)). exact Vr.
+        -- fold (vals sg2 rs). rewrite Hrs. fold (vals sg xb). fold (vals sg yb).
+           assert (Ex : vals sg1 xb = vals sg xb).
+           { unfold vals. apply map_ext_in. intros z Hz'. rewrite Forall_forall in Sx'. apply (ve_ext ins ig _ _ _ _ (proj1 I) E1 (scoped_sval _ _ _ (Sx' z Hz'))). }
+           assert (Ey : vals sg1 yb = vals sg yb).
+           { unfold vals. apply map_ext_in. intros z Hz'. rewrite Forall_forall in Sy'. apply (ve_ext ins ig _ _ _ _ (proj1 I) E1 (scoped_sval _ _ _ (Sy' z Hz'))). }
+           rewrite Ex, Ey. reflexivity.
+Qed.
+Lemma pybit_bool v j : (v = 0 \/ v = 1) -> Bits.pybit v j = if Nat.eqb j 0 then v else 0.
+Proof.
+  intros [H|H]; subst v; rewrite pybit_testbit.
+  - rewrite Z.testbit_0_l. destruct (Nat.eqb j 0); reflexivity.
+  - destruct j as [|j]; [reflexivity|]. cbn [Nat.eqb]. replace (Z.testbit 1 (Z.of_nat (S j))) with false; [reflexivity|].
+    symmetry. change 1 with (2 ^ 0). rewrite Z.pow2_bits_eqb by lia. apply Z.eqb_neq. lia.
+Qed.
+Lemma and_tail_zero a b : (a = 0 \/ a = 1) -> (b = 0 \/ b = 1) -> forall l, (forall j, In j l -> j <> 0%nat) ->
+  Forall (fun v => v = 0) (map (fun ab : Z * Z => snd ab * fst ab) (combine (map (fun j => Bits.pybit a j) l) (map (fun j => Bits.pybit b j) l))).
+Proof.
+  intros Ha Hb. induction l as [|j l IHl]; intros Hl; cbn [map combine]; constructor.
+  - cbn [fst snd]. rewrite !pybit_bool by assumption. destruct j as [|j']; [exfalso; apply (Hl 0%nat); [left; reflexivity|reflexivity]|]. cbn [Nat.eqb]. ring.
+  - apply IHl. intros j0 Hj. apply Hl. right. exact Hj.
+Qed.
+Lemma wsum_and_bool a b : (a = 0 \/ a = 1) -> (b = 0 \/ b = 1) -> forall k, (0 < k)%nat ->
+  wsum (map (fun ab : Z * Z => snd ab * fst ab) (combine (map (fun j => Bits.pybit a j) (seq 0 k)) (map (fun j => Bits.pybit b j) (seq 0 k)))) 0 = a * b.
+Proof.
+  intros Ha Hb k Hk. destruct k as [|k]; [lia|]. cbn [seq map combine wsum fst snd]. rewrite !pybit_bool by assumption. cbn [Nat.eqb].
+  rewrite wsum_zeros; [ring|]. apply and_tail_zero; try assumption. intros j Hj. apply in_seq in Hj. lia.
+Qed.
+(* the conjunction: guard & cond evaluates to guard * cond on boolean values (bitlength >= 1) *)
+Lemma land_bool_wp x y s sg (Q : slc -> gst -> store -> Prop) : Inv s sg -> vscopedb (npub s) (npriv s) (sval y) = true -> (0 < nbits c)%nat ->
+  (ve sg (sval x) = 0 \/ ve sg (sval x) = 1) -> (ve sg (sval y) = 0 \/ ve sg (sval y) = 1) ->
+  (forall r s' sg', Post s sg s' sg' -> ve sg' (sval r) = ve sg (sval x) * ve sg (sval y) -> Q r s' sg') ->
+  wp (land_lc c x y) s sg Q.
+Proof.
+  intros I Cy Hn Hx Hy HQ. unfold land_lc, bitwise. apply wp_bind. apply to_bits_wp; [exact I|]. intros xb s1 sg1 P1 Sxb Vxb.
+  destruct P1 as (I1 & E1 & T1). apply wp_bind. apply to_bits_wp; [exact I1|]. intros yb s2 sg2 P2 Syb Vyb.
+  destruct P2 as (I2 & E2 & T2). pose proof (cnt_mono _ _ _ _ (proj1 I1) (proj1 I2) E2) as [M1 M2].
+  assert (Sxb2 : Forall (fun b => slc_scoped (npub s2) (npriv s2) b = true) xb).
+  { eapply Forall_impl; [|exact Sxb]. intros z Hz. eapply slc_scoped_mono; [| |exact Hz]; lia. }
+  apply wp_bind. apply zip_and_vals; [exact I2|exact Sxb2|exact Syb|].
+  intros rs s3 sg3 P3 Hrs. cbn [ret wp]. destruct P3 as (I3 & E3 & T3).
+  apply HQ; [split; [exact I3|split; [eapply ext_trans; [exact E1|eapply ext_trans; eauto]|congruence]]|].
+  rewrite ve_from_bits, Hrs.
+  assert (Ex : vals sg2 xb = vals sg1 xb).
+  { unfold vals. apply map_ext_in. intros z Hz'. rewrite Forall_forall in Sxb. apply (ve_ext ins ig _ _ _ _ (proj1 I1) E2 (scoped_sval _ _ _ (Sxb z Hz'))). }
+  rewrite Ex, Vxb, Vyb. rewrite (ve_ext ins ig _ _ _ _ (proj1 I) E1 Cy). apply wsum_and_bool; assumption.
+Qed.
+
 Lemma new_guard_wp cnd s sg (Q : slc * bexp -> gst -> store -> Prop) : Inv s sg ->
   (forall gi s' sg', Post s sg s' sg' -> (be sg' (snd gi) = true -> ve sg' (sval (fst gi)) = 0) -> Q gi s' sg') ->
   wp (new_guard c cnd) s sg Q.
@@ -656,6 +758,37 @@ Proof.
     destruct I as (_ & _ & Hs). rewrite Gd in Hs. exact (proj1 Hs Hi).
   - cbn [ret bind]. apply Fin; [apply Post_refl; exact I|].
     intros [Hi|Hc]; [|exact Hc]. destruct I as (_ & _ & Hs). rewrite Gd in Hs. destruct Hs as [Hs _]. congruence.
+Qed.
+
+(* nesting = conjunction: entering a region under an active boolean guard g0 makes the guard g0 * cond *)
+Lemma new_guard_conj_wp cnd g0 s sg (Q : slc * bexp -> gst -> store -> Prop) : Inv s sg -> guard s = Some g0 -> (0 < nbits c)%nat ->
+  (ve sg (sval g0) = 0 \/ ve sg (sval g0) = 1) ->
+  (forall gi s' sg', Post s sg s' sg' -> ve sg' (sval (fst gi)) = ve sg (sval g0) * ve sg (sval cnd) ->
+     (ve sg' (sval (fst gi)) = 0 \/ ve sg' (sval (fst gi)) = 1 \/ be sg (ignore s) = true) -> Q gi s' sg') ->
+  wp (new_guard c cnd) s sg Q.
+Proof.
+  intros I Gd Hn Hg HQ. unfold new_guard, get, raise_if. cbn [bind wp]. intros C B. rewrite Gd.
+  assert (Cc : vscopedb (npub s) (npriv s) (sval cnd) = true).
+  { unfold vne in C. cbn [bscopedb vscopedb] in C. apply andb_prop in C. destruct C as [_ C]. apply andb_prop in C. destruct C as [C _].
+    apply andb_prop in C. tauto. }
+  assert (Fin : forall g s1 sg1, Post s sg s1 sg1 -> ve sg1 (sval g) = ve sg (sval g0) * ve sg (sval cnd) ->
+            (ve sg1 (sval g) = 0 \/ ve sg1 (sval g) = 1 \/ be sg (ignore s) = true) ->
+            wp (bind (lvl:=false) (if oid g =? 0 then fresh_oid else ret (oid g)) (fun o => ret (with_oid g o, BOr (ignore s) (BEq (sval cnd) (VConst 0))))) s1 sg1 Q).
+  { intros g s1 sg1 P1 Hv Hb. destruct P1 as (I1 & E1 & T1).
+    assert (K : forall o s2, Inv s2 sg1 -> cur_triple s2 = cur_triple s -> Q (with_oid g o, BOr (ignore s) (BEq (sval cnd) (VConst 0))) s2 sg1).
+    { intros o s2 I2 T2. apply HQ; cbn [fst snd sval with_oid]; try assumption. split; [exact I2|split; [exact E1|exact T2]]. }
+    destruct (oid g =? 0); unfold fresh_oid, ret; cbn [bind wp]; apply K; try exact I1; exact T1. }
+  apply wp_bind. destruct (be sg (ignore s)) eqn:Bi.
+  - (* errors suppressed: the enclosing guard is 0 *)
+    assert (G0 : ve sg (sval g0) = 0) by (destruct I as (_ & _ & Hs); rewrite Gd in Hs; exact (proj1 Hs Bi)).
+    apply land_zero_wp; [exact I|exact Cc|]. intros r s1 sg1 P1 Hr. apply Fin; [exact P1| |].
+    + rewrite (Hr (or_introl G0)), G0. ring.
+    + right. right. reflexivity.
+  - esimp_in B. rewrite Bi in B. cbn [negb andb] in B. unfold vne in B. esimp_in B.
+    assert (Hc : ve sg (sval cnd) = 0 \/ ve sg (sval cnd) = 1).
+    { destruct (Z.eqb_spec (ve sg (sval cnd)) 0); [left; assumption|]. destruct (Z.eqb_spec (ve sg (sval cnd)) 1); [right; assumption|discriminate B]. }
+    apply land_bool_wp; try assumption. intros r s1 sg1 P1 Hr. apply Fin; [exact P1|exact Hr|].
+    rewrite Hr. destruct Hg as [->| ->], Hc as [->| ->]; cbn; auto.
 Qed.
 
 (* ---- guarded(cond)(fn)(): the region ---- *)
